@@ -147,7 +147,7 @@ class Findings:
     def match(self, symptom, features):
         fs = set(features)
         for e in self.entries:
-            if e["symptom"] != symptom:
+            if symptom not in (e.get("symptoms") or [e["symptom"]]):
                 continue
             if not set(e["pattern"]) <= fs:
                 continue
